@@ -88,6 +88,9 @@ def classes():
                     price = base * rng.choice(tpl["mult"])
                 if rng.random() < tpl.get("offgrid", 0.0):
                     price += rng.random() * m.tick_size
+                if price <= 0 and tpl.get("penny"):
+                    # a positive price below one tick: a buy comes to rest at 0.0, a sell one tick above
+                    price = rng.choice([0.25, 0.5, 0.75]) * m.tick_size
                 if price <= 0:
                     price = 0.0 if (tpl.get("allow_zero") and price == 0) else m.tick_size
                 if self.program.get("scalars") == "numpy":
@@ -706,7 +709,7 @@ def gen_runner_case(rng, tier, profile="matching", **kw):
     return {"drive": "runner", "seed": rng.randrange(1 << 31), "config": cfg, "profile": profile}
 
 
-def gen_accounting_case(rng, tier, hostile=None, hft=None, hostile_hft=False):
+def gen_accounting_case(rng, tier, hostile=None, hft=None, hostile_hft=False, penny=None):
     """workload for the life-cycle monitors: several markets, normal and HFT scripted agents that cancel
     (resting, partly filled, filled, expired, already cancelled orders), quote both sides (self-trades),
     short and absent ttl, placement-only sessions followed by execution sessions (batch clearing)."""
@@ -757,6 +760,16 @@ def gen_accounting_case(rng, tier, hostile=None, hft=None, hostile_hft=False):
                           "cashAmount": rng.choice([10000, {"uniform": [100, 100000]}]),
                           "assetVolume": rng.choice([0, 30, {"uniform": [0, 100]}]), "program": prog()}
         cfg["simulation"]["agents"].append("A%d" % g)
+    if (rng.random() < 0.1) if penny is None else penny:
+        # a penny market: quotes below one tick rest at 0.0 and trade there (fills that move no cash)
+        pm = names[0]
+        cfg[pm]["marketPrice"] = cfg[pm]["tickSize"] * rng.choice([1, 1, 2])
+        cfg[pm].pop("fundamentalVolatility", None)
+        for k, v in cfg.items():
+            if isinstance(v, dict) and "program" in v:
+                for w, tpl in v["program"]["actions"]:
+                    if tpl["a"] == "limit":
+                        tpl["penny"] = True
     n_hft = hft if hft is not None else rng.choice([0, 1, 2, 3])
     if n_hft:
         cfg["H"] = {"class": "ScriptHFTAgent", "numAgents": n_hft, "markets": list(names), "cashAmount": 5000,
